@@ -72,6 +72,13 @@ P = {
                   "executed on the real cache, a synchronised client and event handlers for run-time, hand-written and generated models, judged by TraceIso.tla.",
              note="Trusted: TLC; the harness' mutations by reflection; RowsShallow exempt as documented.",
              tech="TLC model checking of a heap model (Iso.tla) + exhaustive enumerate-and-replay + TLC trace validation"),
+ "C14": dict(engine="tla-session", cat="model_checking", ref="6 C14",
+             text="Events.tla models the event processor (bounded buffer, updater and dispatcher goroutines, several handlers); TLC checks on every "
+                  "interleaving that what a handler saw is a prefix of the applied changes, that handlers agree and that folding reproduces the cache, and "
+                  "refutes a per-handler delivery variant; recording handlers on real clients' caches capture every callback of random sessions and "
+                  "TraceTxn.tla folds them (legality of each event, result = cache contents, equal sequences) after a FIFO marker barrier.",
+             note="Trusted: TLC; the marker barrier (a later event proves the earlier ones were delivered). Buffer overflow and reconnect purges are outside the statement.",
+             tech="TLC model checking of Events.tla + TLC trace validation of recorded handler callbacks"),
  "C15": dict(engine="tla-txn", cat="model_checking", text=TXN_TEXT, note=TXN_NOTE, ref="6 C15",
              tech="type-directed name expansion in Txn.tla judging recorded transactions with named inserts"),
 }
